@@ -53,7 +53,7 @@ CHECKS = {
         "require_ops": ["lax.to_strict", "lax.from_strict", "lax.roundtrip_strict", "lax.roundtrip_lax", "lax.compose", "lax.lax_compose", "lax.tensor_assign", "lax.append", "lax.singleton"],
     },
     "C15": {
-        "quick": {"drive": [{'machine': 'strict', 'budget': 3000}], "gen": [G("MC_C15", "MC_C15_quick.cfg")]},
+        "quick": {"drive": [{"machine": "strict", "budget": 3000}], "gen": [G("MC_C15", "MC_C15_quick.cfg"), G("MC_C15", "MC_C15_quick_b.cfg")]},
         "thorough": {"drive": [{'machine': 'strict', 'budget': 50000}], "gen": [G("MC_C15", "MC_C15_thorough.cfg")]},
         "require_ops": ["strict.layer", "strict.layered_operations", "hook.kahn", "hook.converse", "hook.operation_adjacency", "hook.indegree"],
     },
@@ -94,6 +94,7 @@ CHECKS = {
     },
     "C20": {
         "quick": {"drive": [{'machine': 'strict', 'budget': 2000, 'backend': 'adv'}, {'machine': 'arrays', 'budget': 2000, 'backend': 'adv'}], "advseeds": 4, "gen": [
+            G("MC_C20", "MC_C20_quick.cfg", model_only=True),
             G("MC_C07", "MC_C07_small.cfg", backends=["adv"]),
             G("MC_C01", "MC_C01_small.cfg", backends=["adv"]),
             G("MC_C04", "MC_C04_small.cfg", backends=["adv"]),
@@ -104,6 +105,7 @@ CHECKS = {
             G("MC_C18", "MC_C18_small.cfg", backends=["adv"]),
         ]},
         "thorough": {"drive": [{'machine': 'strict', 'budget': 30000, 'backend': 'adv'}, {'machine': 'arrays', 'budget': 30000, 'backend': 'adv'}], "advseeds": 16, "gen": [
+            G("MC_C20", "MC_C20_thorough.cfg", model_only=True),
             G("MC_C07", "MC_C07_quick.cfg", backends=["adv"]),
             G("MC_C01", "MC_C01_quick.cfg", backends=["adv"]),
             G("MC_C04", "MC_C04_quick.cfg", backends=["adv"]),
